@@ -4,6 +4,7 @@ package hooks
 
 import (
 	"bytes"
+	"encoding/json"
 	"fmt"
 	"io"
 	"math"
@@ -11,6 +12,7 @@ import (
 	"reflect"
 	"strings"
 	"sync"
+	"sync/atomic"
 	"testing"
 	"time"
 
@@ -744,5 +746,89 @@ func TestVerif_C19_CachePerHook(t *testing.T) {
 			rep.Counter("C19", "per_hook_cache_calls_judged", int64(judged))
 			rep.Case("C19", id, judged > 0, id, map[string]interface{}{"order": order, "controllerType": fmt.Sprint(ctype), "calls": judged, "endpointCalls": calls})
 		}
+	}
+}
+
+// Truly concurrent calls about one parent through one ETag executor (the parallel per-revision
+// calls of a rolling update), run under the race detector: the hook's representation changes
+// version while calls are in flight. Every call that succeeds was answered with the body of the
+// version the server meant for it (the 200 it sent, or the version whose ETag the call presented and
+// the server confirmed with 304); the cache entries are swapped, never edited in place (no race).
+func TestVerif_C19_ConcurrentCalls(t *testing.T) {
+	rep := sim.R()
+	for run := 0; run < sim.Pick(2, 8); run++ {
+		id := fmt.Sprintf("c19-concurrent-%d", run)
+		if !sim.WantCase(id) {
+			continue
+		}
+		rep.Begin("C19", id)
+		etag := &webhookExecutorEtag{etagCache: cache.New[eTagKey, *eTagEntry](0, 0)}
+		var version int64 = 1
+		var mu sync.Mutex
+		meant := map[string]int64{} // call id -> version the server meant for that call
+		client := &scriptedClient{fn: func(r *http.Request, body []byte) (*http.Response, error) {
+			var req struct {
+				Parent struct {
+					Spec struct {
+						Content string `json:"content"`
+					} `json:"spec"`
+				} `json:"parent"`
+			}
+			_ = json.Unmarshal(body, &req)
+			v := atomic.LoadInt64(&version)
+			et := fmt.Sprintf(`"V-%d"`, v)
+			mu.Lock()
+			meant[req.Parent.Spec.Content] = v
+			mu.Unlock()
+			if r.Header.Get("If-None-Match") == et {
+				return httpResp(304, map[string]string{}, ""), nil
+			}
+			return httpResp(200, map[string]string{"ETag": et}, bodyFor(fmt.Sprintf("V-%d", v))), nil
+		}}
+		mode := v1alpha1.ResponseUnmarshallModeLoose
+		ex := newWebhookExecutor(client, "http://hook.sim/x", common.SyncHook, &mode, etag, time.Now)
+		const workers, callsEach = 8, 400
+		var wg sync.WaitGroup
+		var ok, failed, wrong int64
+		var firstWrong atomic.Value
+		for g := 0; g < workers; g++ {
+			g := g
+			wg.Add(1)
+			go func() {
+				defer wg.Done()
+				for i := 0; i < callsEach; i++ {
+					if g == 0 && i%5 == 0 {
+						atomic.AddInt64(&version, 1) // the hook's answer changes
+					}
+					callID := fmt.Sprintf("g%d-i%d", g, i)
+					var resp compositev1.CompositeHookResponse
+					var err error
+					if stack, p := sim.Guard(func() { err = ex.Call(request("p", callID), &resp) }); p {
+						rep.Violation("C19", id, "panic:"+sim.PanicSite(stack), stack, nil)
+						return
+					}
+					if err != nil {
+						atomic.AddInt64(&failed, 1) // (a 304 for an entry that has been replaced meanwhile is an error, rightly)
+						continue
+					}
+					mu.Lock()
+					want := meant[callID]
+					mu.Unlock()
+					if servedFor(&resp) != fmt.Sprintf("V-%d", want) {
+						if atomic.AddInt64(&wrong, 1) == 1 {
+							firstWrong.Store(fmt.Sprintf("call %s: the server meant version V-%d, the call returned the body of %q", callID, want, servedFor(&resp)))
+						}
+					} else {
+						atomic.AddInt64(&ok, 1)
+					}
+				}
+			}()
+		}
+		wg.Wait()
+		if wrong > 0 {
+			rep.Violation("C19", id, "concurrent:body-of-another-version", fmt.Sprintf("%d of %d successful concurrent calls were answered with a body that does not belong to the version the hook meant; first: %v", wrong, ok+wrong, firstWrong.Load()), map[string]interface{}{"workers": workers, "callsEach": callsEach})
+		}
+		rep.Counter("C19", "concurrent_calls_judged", ok+wrong)
+		rep.Case("C19", id, ok > 0, id, map[string]interface{}{"workers": workers, "callsEach": callsEach, "succeeded": ok, "failedRightly": failed, "versions": atomic.LoadInt64(&version)})
 	}
 }
